@@ -14,7 +14,12 @@ HINT = {'amount': 10 ** 6, 'other_amount': 5 * 10 ** 5, 'duration': DAY * 30, 'n
 
 
 def base_world(I, now_s=None, epoch=None):
-    fm_config(I)
+    # the allowed range of unlocking durations is whatever the owner configured NOW -- possibly narrower than when a position was opened
+    cmin = I.sym('cfg_min_unlock', lo=DAY, hi=YEAR)
+    cmax = I.sym('cfg_max_unlock', lo=DAY, hi=YEAR)
+    I.assume(cmin <= cmax)
+    fm_config(I, min_unlock=cmin, max_unlock=cmax)
+    I.world.meta['cfg_unlock'] = (cmin, cmax)
     now = I.sym('now_s', hi=U64 // NS) if now_s is None else now_s
     ep = I.sym('epoch', lo=1, hi=10 ** 6) if epoch is None else epoch
     set_epoch(I, ep, now_s=now)
@@ -37,7 +42,8 @@ def _c08_state(m, closed_key='is_closed', with_other=True, with_weights=False):
     if with_other:
         pos.append(('u-b', LP1, m.get('other_amount', 1), m['duration'], 'bob', None))
     d = {'now_s': m['now_s'], 'positions': pos, 'counters': {'position': 7},
-         'mints': [('farm_manager', [(LP1, m['fm_lp_balance'])])]}
+         'mints': [('farm_manager', [(LP1, m['fm_lp_balance'])])],
+         'config': {'min_unlocking_duration': m.get('cfg_min_unlock', DAY), 'max_unlocking_duration': m.get('cfg_max_unlock', YEAR)}}
     if with_weights:
         d['weights'] = [('farm_manager', LP1, m['epoch'], m['total_w']), ('alice', LP1, m['epoch'], m['user_w'])]
     return d
@@ -68,7 +74,8 @@ def _replay_s3(m):
     recv = [None, '@alice', '@bob'][ch['receiver']]
     ident = [None, 'fresh', 'taken'][ch['ident']]
     d = {'now_s': m['now_s'], 'positions': [('u-taken', LP1, 5, DAY, 'bob', None)], 'counters': {'position': 7},
-         'mints': [('farm_manager', [(LP1, m['fm_lp_balance'])]), (who, [(LP1, m['amount'])])]}
+         'mints': [('farm_manager', [(LP1, m['fm_lp_balance'])]), (who, [(LP1, m['amount'])])],
+         'config': {'min_unlocking_duration': m.get('cfg_min_unlock', DAY), 'max_unlocking_duration': m.get('cfg_max_unlock', YEAR)}}
     d['txs'] = [(who, _pos_msg('create', identifier=ident, unlocking_duration=m['duration'], receiver=recv), [(LP1, m['amount'])])]
     return d
 
@@ -222,15 +229,18 @@ def s3(I):
     pre = b.snapshot()
     st, resp = ch.execute(who, FM, manage_position('Create', identifier=ident, unlocking_duration=dur, receiver=recv), [coin_v(LP1, amt)])
     authorised = (who == PMA) or (recv_addr == who)
+    cmin, cmax = I.world.meta['cfg_unlock']
+    dur_ok = smt.And(cmin <= dur, dur <= cmax)
     I.observe('status', 'ok' if st == 'ok' else 'err')
     for pid in ('p-8', 'u-fresh', 'u-taken'):
         observe_position(I, pid)
     observe_balances(I, b, [(FM, LP1), (who, LP1)])
     if st != 'ok':
         I.cover('rejected', HINT)
-        I.check('rejected_only_if_unauthorised_or_taken', (not authorised) or ik == 2)
+        I.check('rejected_only_if_unauthorised_or_taken', smt.Or((not authorised) or ik == 2, smt.Not(dur_ok)))
         return
     I.cover('ok', HINT)
+    I.check('duration_within_the_configured_range', dur_ok)
     I.check('creating_for_others_needs_pool_manager', authorised)
     I.check('existing_id_refused', ik != 2)
     # the new position is whichever one did not exist before (the identifier format -- u- / p- prefixes -- is not part of the property)
